@@ -1010,7 +1010,7 @@ def all_names(ops, acc):
 
 def _arg(e, s):
     if s and srcable(e):
-        return to_src(e)
+        return to_src(e, left_products=True)
     return to_pym(e)
 
 
